@@ -1011,7 +1011,8 @@ class ParsedBindingKey(typing.NamedTuple):
       err_str = "Method '{}' referenced without class name '{}'."
       raise ValueError(err_str.format(selector, class_name))
 
-    if not _might_have_parameter(configurable_.wrapper, arg_name):
+    if not _might_have_parameter(
+        configurable_.wrapper, arg_name, by_keyword=True):
       err_str = "Configurable '{}' doesn't have a parameter named '{}'."
       raise ValueError(err_str.format(selector, arg_name))
 
@@ -1207,7 +1208,7 @@ def query_parameter(binding_key):
   return _CONFIG[pbk.config_key][pbk.arg_name]
 
 
-def _might_have_parameter(fn_or_cls, arg_name):
+def _might_have_parameter(fn_or_cls, arg_name, by_keyword=False):
   """Returns True if `arg_name` might be a valid parameter for `fn_or_cls`.
 
   Specifically, this means that `fn_or_cls` either has a parameter named
@@ -1216,6 +1217,8 @@ def _might_have_parameter(fn_or_cls, arg_name):
   Args:
     fn_or_cls: The function or class to check.
     arg_name: The name fo the parameter.
+    by_keyword: Whether the parameter has to accept a keyword argument (which is
+      how Gin supplies values); positional-only parameters don't.
 
   Returns:
     Whether `arg_name` might be a valid argument of `fn`.
@@ -1230,6 +1233,8 @@ def _might_have_parameter(fn_or_cls, arg_name):
   arg_spec = _get_cached_arg_spec(fn)
   if arg_spec.varkw:  # pytype: disable=attribute-error
     return True
+  if by_keyword and arg_name in _get_positional_only_parameter_names(fn):
+    return False
   return arg_name in arg_spec.args or arg_name in arg_spec.kwonlyargs  # pytype: disable=attribute-error
 
 
@@ -1259,6 +1264,15 @@ def _get_cached_arg_spec(fn: Callable[..., Any]) -> inspect.FullArgSpec:
       arg_spec = arg_spec._replace(args=arg_spec.args[1:])
     _ARG_SPEC_CACHE[fn] = arg_spec
   return arg_spec
+
+
+def _get_positional_only_parameter_names(fn):
+  """Returns the names of the positional-only parameters (`def f(a, /)`)."""
+  try:
+    parameters = inspect.signature(fn).parameters.values()
+  except (TypeError, ValueError):
+    return []
+  return [p.name for p in parameters if p.kind == p.POSITIONAL_ONLY]
 
 
 def _get_supplied_positional_parameter_names(fn, args):
@@ -1327,12 +1341,15 @@ def _get_default_configurable_parameter_values(fn, allowlist, denylist):
   arg_vals = _get_kwarg_defaults(fn)
 
   # Now, eliminate keywords that are denylisted, or aren't allowlisted (if
-  # there's an allowlist), or aren't representable as a literal value.
+  # there's an allowlist), or aren't representable as a literal value, or that
+  # can't be bound at all (positional-only parameters).
+  positional_only = _get_positional_only_parameter_names(fn)
   for k in list(arg_vals):
     allowlist_fail = allowlist and k not in allowlist
     denylist_fail = denylist and k in denylist
     representable = _is_literally_representable(arg_vals[k])
-    if allowlist_fail or denylist_fail or not representable:
+    unbindable = k in positional_only and not _get_cached_arg_spec(fn).varkw
+    if allowlist_fail or denylist_fail or not representable or unbindable:
       del arg_vals[k]
 
   return arg_vals
